@@ -205,6 +205,12 @@ def enc(s):
 
 def gen_input(rng, alpha, walker=None):
     """Returns bytes. Three streams: mostly-valid (walker through the DFA when given), boundary, malformed."""
+    if rng.random() < 0.06:
+        # inputs that tools like to treat specially: byte order mark, shebang, NUL / ^Z, (CR) LF at the very start or end
+        inner = gen_input(rng, alpha, walker)
+        pre = rng.choice([b"\xef\xbb\xbf", b"\xef\xbb\xbf", b"#!", b"\x00", b"\r\n", b"\n", b"\xff\xfe", b""])
+        post = rng.choice([b"", b"\n", b"\r\n", b"\x1a", b"\x00", b" ", b"\xef\xbb\xbf"])
+        return pre + inner + post
     k = rng.random()
     if walker is not None and k < 0.55:
         return walker(rng)
